@@ -135,6 +135,10 @@ type Builder struct {
 	buf     []byte
 	PtrSize uintptr
 	Sizes   types.Sizes
+	// Align64 and AlignF64 are the target's ABI alignments of 64-bit integers
+	// and of float64 (0 means 8). They are 4 on 386.
+	Align64  uintptr
+	AlignF64 uintptr
 }
 
 // New creates a new ABI type Builder.
